@@ -28,7 +28,7 @@ use std::thread;
 
 use cfg_if::cfg_if;
 use crossbeam_channel as cbc;
-use libfs::copy_node;
+use libfs::{copy_node, is_same_file};
 use log::{error, info};
 use blocking_threadpool::{Builder, ThreadPool};
 
@@ -246,6 +246,9 @@ fn dispatch_worker(file_q: cbc::Receiver<Operation>, stats: &Arc<dyn StatusUpdat
                 if to.exists() {
                     if config.no_clobber {
                         return Err(XcpError::DestinationExists("Destination file exists and --no-clobber is set.", to).into());
+                    }
+                    if is_same_file(&from, &to)? {
+                        return Err(XcpError::DestinationExists("Source and destination are the same file.", to).into());
                     }
                     remove_file(&to)?;
                 }
